@@ -39,10 +39,17 @@ for p in $PROPS; do
   done
 done
 python3 - <<PY
-import json,os
+import json
+def merge(new):
+    # results of properties not run this time are kept from the previous evaluation
+    try: old=json.load(open("$OUT/meta.json")).get("checks_run",[])
+    except Exception: old=[]
+    done={c["property"] for c in new}
+    return [c for c in old if c["property"] not in done]+new
+,os
 json.dump({"id":"$ID","kind":"benign: every property still holds with this change","source":"written by an independent sub-agent that saw only the property texts",
  "notes":open("$OUT/notes.md").read() if os.path.exists("$OUT/notes.md") else "",
  "confirmed":{"applies":"$res_apply","builds_and_existing_suite_with_change":"$suite"},
- "checks_run":[${results%,}]},open("$OUT/meta.json","w"),indent=1)
+ "checks_run":merge([${results%,}])},open("$OUT/meta.json","w"),indent=1)
 PY
 echo "--- $ID done"
